@@ -2,10 +2,10 @@
 package main
 
 import (
-	"runtime/pprof"
 	"flag"
 	"fmt"
 	"os"
+	"runtime/pprof"
 	"sort"
 
 	"astverif/props"
